@@ -234,8 +234,8 @@ def _sb_grid(cfg, base):
     stop = last_start + timedelta(seconds=gran) + timedelta(minutes=3)
     one = timedelta(seconds=1)
     while t <= stop:
-        for tt in (t - one, t, t + one):
-            secs = (tt - start).total_seconds()
+        for tt in (t - one, t, t + one, t - timedelta(seconds=0.12), t + timedelta(seconds=0.5), t + timedelta(microseconds=1)):
+            secs = (tt - start).total_seconds()   # instants with a sub-second part too (gaps such as 0.3333 h produce them)
             exp = math.floor(secs / gran)
             for force in (True, False):
                 r = _call(h, sb.dateToIdx, tt, force)
